@@ -1,4 +1,6 @@
 import PyamgV.Props.Restate
+import PyamgV.Model.Facts
+import PyamgV.Generated.Facts
 import PyamgV.Proofs.GsArrayRefine
 import PyamgV.Proofs.Sor
 import PyamgV.Proofs.SorAdjoint
@@ -77,5 +79,9 @@ example : HasDiag (K := Rat) 0 [(1, -1), (0, 2)] 2 ∧ (2 : Rat) ≠ 0 := by
   · norm_num
 example : K.gaussSeidel (α := Rat) ⟨2, #[0, 2, 4], #[1, 0, 0, 1], #[-1, 2, -1, 2]⟩ #[1, 1] [0, 1] #[0, 0]
     = #[1/2, 3/4] := by decide +kernel
+
+/-! ### interface facts regenerated from the working tree on every run (translator tie) -/
+/-- the `kernels_relaxation` table the models assume equals the one regenerated from the source now -/
+theorem generated_kernels_relaxation : PyamgV.Facts.kernels_relaxation = PyamgV.Generated.kernels_relaxation := by decide
 
 end PyamgV.Props.C09
